@@ -48,7 +48,10 @@ func checkC13(c *Ctx) {
 			enq := enqs[0]
 			// on the done==false edge every path reaches the enqueue
 			var after ssa.Instruction
-			for _, l := range findInstrs(fn, func(in ssa.Instruction) bool { op := atomicOpOf(in); return op != nil && op.Field == fDone && op.Kind == "load" }) {
+			for _, l := range findInstrs(fn, func(in ssa.Instruction) bool {
+				op := atomicOpOf(in)
+				return op != nil && op.Field == fDone && op.Kind == "load"
+			}) {
 				lv := l.(ssa.Value)
 				for _, b := range fn.Blocks {
 					if iff, ok := condOf(b); ok {
@@ -172,7 +175,10 @@ func checkC13(c *Ctx) {
 	if ctor := c.fn(pk, "", "NewReporter"); ctor != nil {
 		key := c.fnKey(ctor)
 		c.sawFunc(key)
-		stores := findInstrs(ctor, func(in ssa.Instruction) bool { op := atomicOpOf(in); return op != nil && op.Field == fNow && op.Kind == "store" })
+		stores := findInstrs(ctor, func(in ssa.Instruction) bool {
+			op := atomicOpOf(in)
+			return op != nil && op.Field == fNow && op.Kind == "store"
+		})
 		gos := findInstrs(ctor, func(in ssa.Instruction) bool { _, ok := in.(*ssa.Go); return ok })
 		ok := len(stores) > 0 && len(gos) > 0
 		for _, g := range gos {
